@@ -31,7 +31,7 @@ from deeprob.utils.graph import compute_bfs_ordering
 from deeprob.spn.structure.cltree import BinaryCLT
 from deeprob.spn.structure.io import save_binary_clt_json, load_binary_clt_json
 
-EXE = os.environ.get('DEEPROB_DRIVER', '/verif/lean/.lake/build/bin/driver')
+EXE = os.environ.get('DEEPROB_DRIVER', __import__('os').path.join(__import__('os').path.dirname(__import__('os').path.dirname(__import__('os').path.dirname(__import__('os').path.abspath(__file__)))), 'lean', '.lake', 'build', 'bin', 'driver'))
 SEED = int(sys.argv[1]) if len(sys.argv) > 1 else 20260929
 rnd = random.Random(SEED)
 nrs = np.random.RandomState(SEED % (2 ** 32))
